@@ -18,7 +18,8 @@ EXPLANATION = (
     "algorithm over all control-flow graphs is not decided."
     " ADDED LATER: R8 who may write the scoper's state (scope stack, pruning tables, the constant-initialiser context)."
     " ROUND 9: R4-IDENTITY-BY-ID: the sets of the goto pruning are keyed by resolution id (collecting closure and membership test), not by name."
-    " ROUND 10: R4-LABEL-SET-CONSUMED: either every return of prune_at_label is dominated by the removal of the label's entry from unresolved_labels, or label ids are never reused in a module (the label analyzer's resolution_id is only incremented) -- one obligation, because either half alone keeps a stale goto set from meeting another label.")
+    " ROUND 10: R4-LABEL-SET-CONSUMED: either every return of prune_at_label is dominated by the removal of the label's entry from unresolved_labels, or label ids are never reused in a module (the label analyzer's resolution_id is only incremented) -- one obligation, because either half alone keeps a stale goto set from meeting another label."
+    " ROUND 12: R4-PRUNE-UNCONDITIONAL: with the None edges of its discriminant switches removed, every path through prune_at_label passes the filter of the layer's variables against the intersection (no fast path that decides by counts).")
 
 VR = "alpha::scoper::variable_references::"
 AN = VR + "Analyzer::"
